@@ -184,6 +184,12 @@ def run(events, enforce=True):
             raise RejectFormat("section starts with unmapped tag type")
         m = TAGMAP[t]
         if m is None:
+            # an ignored (prepare / activate) section that was closed by its REBOOT ends there: its checksum, version check and
+            # reboot belong to it and to no later section ("tags as the BF2 instructions state")
+            if "REBOOT" in instrs:
+                for name in ("REBOOT", "CRC", "CHECK_FWVER"):
+                    instrs.pop(name, None)
+                pending = []
             return
         typ, hwcid, fmt, intf = m
         desc = {T_FMT: bytes([fmt]), T_TYPE: bytes([typ])}
@@ -250,7 +256,7 @@ def run(events, enforce=True):
         if ev[0] == "group":
             lines = ev[1]
             t = lines[0][0]
-            if not known(t):
+            if not all(known(ln[0]) for ln in lines):
                 raise RejectFormat("unknown tag type")
             if t in TAGMAP and pending:
                 emit()
